@@ -44,6 +44,23 @@ func Report(c *Ctx, findings []Finding, verifDir string, seed int, wall float64,
 			known[f.Key] = f
 		}
 	}
+	aliasOf := map[string]string{}
+	// a finding recorded at a private helper that was written out inside its only caller is the same finding at that caller
+	for _, pr := range c.InlinedPairs() {
+		hf, cf := SpecForms(pr[0]), SpecForms(pr[1])
+		for k, f := range known {
+			for i := range hf {
+				if i < len(cf) && strings.Contains(k, hf[i]) {
+					if k2 := strings.ReplaceAll(k, hf[i], cf[i]); k2 != k {
+						if _, dup := known[k2]; !dup {
+							known[k2] = f
+							aliasOf[k2] = k
+						}
+					}
+				}
+			}
+		}
+	}
 	sort.SliceStable(c.Obligations, func(i, j int) bool { return c.Obligations[i].Key < c.Obligations[j].Key })
 	var discharged, violated, knownHit, nontrivial int
 	var viol []*Obligation
@@ -59,6 +76,9 @@ func Report(c *Ctx, findings []Finding, verifDir string, seed int, wall float64,
 		if f, ok := known[o.Key]; ok {
 			knownHit++
 			usedKnown[o.Key] = true
+			if a, ok := aliasOf[o.Key]; ok {
+				usedKnown[a] = true
+			}
 			fmt.Printf("KNOWN-FINDING: property=%s %s [%s] %s\n", c.Prop, f.What, o.Key, o.Pos)
 			continue
 		}
@@ -67,7 +87,7 @@ func Report(c *Ctx, findings []Finding, verifDir string, seed int, wall float64,
 	}
 	// a listed finding that no longer reproduces is reported (not fatal): the entry should become a "fixed" one
 	for k := range known {
-		if !usedKnown[k] {
+		if _, isAlias := aliasOf[k]; !usedKnown[k] && !isAlias {
 			fmt.Printf("NOTE: known finding %s no longer reproduces on this tree\n", k)
 		}
 	}
